@@ -14,6 +14,8 @@ w = sp.Symbol('w', positive=True)
 tau = sp.Symbol('tau', real=True)
 T = sp.Symbol('T', positive=True)
 J = sp.Symbol('J', real=True)
+EPS = sp.Symbol('EPS', positive=True)          # np.finfo(float).eps
+WC = sp.Symbol('wc', positive=True)            # self.cutoff
 
 
 class NotTranslatable(Exception):
@@ -52,6 +54,10 @@ def to_sympy(node, env):
     if isinstance(node, ast.Attribute):
         if isinstance(node.value, ast.Name) and node.value.id == 'self' and node.attr == 'temperature':
             return T
+        if isinstance(node.value, ast.Name) and node.value.id == 'self' and node.attr == 'cutoff':
+            return WC
+        if node.attr == 'eps' and isinstance(node.value, ast.Call) and ast.unparse(node.value.func) == 'np.finfo':
+            return EPS
         raise NotTranslatable('attribute ' + node.attr)
     if isinstance(node, ast.Call):
         f = node.func
@@ -59,6 +65,8 @@ def to_sympy(node, env):
             return sp.exp(to_sympy(node.args[0], env))
         if isinstance(f, ast.Attribute) and isinstance(f.value, ast.Name) and f.value.id == 'self' and f.attr == '_spectral_density':
             return J
+        if isinstance(f, ast.Attribute) and isinstance(f.value, ast.Name) and f.value.id == 'np' and f.attr == 'finfo':
+            return sp.Symbol('FINFO')
         raise NotTranslatable('call ' + ast.unparse(f))
     raise NotTranslatable(type(node).__name__)
 
@@ -76,7 +84,16 @@ def kernel_branches(funcdef, env):
             if len(stmts) == 1 and isinstance(stmts[0], ast.Assign):
                 return to_sympy(stmts[0].value, env)
             raise NotTranslatable('branch body')
-        return {'thermal': val(iff.body), 'guard': val(iff.orelse), 'guard_test': ast.unparse(iff.test)}
+        out = {'thermal': val(iff.body), 'guard': val(iff.orelse), 'guard_test': ast.unparse(iff.test)}
+        # the guard condition as  lhs - rhs  of  `lhs > rhs`  (thermal branch taken when positive)
+        t = iff.test
+        if isinstance(t, ast.Compare) and len(t.ops) == 1 and isinstance(t.ops[0], (ast.Gt, ast.GtE)):
+            out['guard_margin'] = to_sympy(t.left, env) - to_sympy(t.comparators[0], env)
+        elif isinstance(t, ast.Compare) and len(t.ops) == 1 and isinstance(t.ops[0], (ast.Lt, ast.LtE)):
+            out['guard_margin'] = to_sympy(t.comparators[0], env) - to_sympy(t.left, env)
+        else:
+            raise NotTranslatable('guard condition ' + ast.unparse(t))
+        return out
     raise NotTranslatable('integrand shape')
 
 
